@@ -5,6 +5,7 @@ From Coq Require Import List NArith ZArith Bool Lia Arith.
 From GmsmVerif Require Import Lib.Outcome EC.ECAffine EC.SM2Curve SM3.SM3Spec
      SM2.SM2Bytes SM2.SM2BytesProofs SM2.SM2Spec SM2.DER SM2.SM2Model SM2.SM2SignProofs SM2.DERProofs SM2.SM2Group.
 From GmsmVerif Require Import X509.CreateSM2Model.
+From GmsmVerif Require Props.C01.   (* the interface: only the property theorems of C01 are used below *)
 Import ListNotations.
 Open Scope Z_scope.
 
@@ -18,7 +19,7 @@ Proof.
   destruct (sig_decode b) as [[r s]|]; [|reflexivity].
   change (Sm2Verify pub signed [] r s) with (Sm2Verify pub signed default_uid r s).
   destruct ((r <=? 0) || (s <=? 0))%bool eqn:E; [|reflexivity].
-  symmetry. apply not_true_is_false. intro H. apply Sm2Verify_iff in H as (za & _ & Hr & Hs & _).
+  symmetry. apply not_true_is_false. intro H. apply C01.C01_Sm2Verify_characterisation in H as (za & _ & Hr & Hs & _).
   apply orb_true_iff in E. destruct E as [E|E]; apply Z.leb_le in E; lia.
 Qed.
 
@@ -39,11 +40,11 @@ Lemma checkSignature_sm2_iff : forall pub signed b, bytes_ok b ->
   (checkSignature_sm2 pub signed b = true <->
    exists r s, b = sig_encode r s /\ Sm2Verify pub signed [] r s = true).
 Proof.
-  intros pub signed b Hb. rewrite checkSignature_sm2_is_PublicKey_Verify, (PublicKey_Verify_iff pub signed b Hb).
+  intros pub signed b Hb. rewrite checkSignature_sm2_is_PublicKey_Verify, (C01.C01_PublicKey_Verify_strict pub signed b Hb).
   split.
   - intros (r & s & E & _ & Hv). exists r, s. split; [exact E|exact Hv].
   - intros (r & s & E & Hv). exists r, s. split; [exact E|]. split; [|exact Hv].
-    pose proof Hv as Hv'. apply Sm2Verify_iff in Hv' as (za & _ & Hr & Hs & _).
+    pose proof Hv as Hv'. apply C01.C01_Sm2Verify_characterisation in Hv' as (za & _ & Hr & Hs & _).
     subst b. pose proof sm2_n_lt_2_256. pose proof (sig_encode_length r s ltac:(lia) ltac:(lia)).
     assert (72 < 2 ^ 32) by reflexivity. lia.
 Qed.
@@ -56,8 +57,8 @@ Proof.
   intros F fuel d tbs rho sig rho' Hd H. unfold create_signature_sm2, Sign in H.
   destruct (Sm2Sign fuel (key_of d) tbs [] rho) as [[[r s] rho1]| | |] eqn:E; try discriminate.
   cbn [obind] in H. injection H as <- <-.
-  pose proof (Sm2Sign_then_Sm2Verify F fuel d tbs [] rho r s rho1 Hd E) as Hv.
-  pose proof Hv as Hv'. apply Sm2Verify_iff in Hv' as (za & _ & Hr & Hs & _).
+  pose proof (C01.C01_Sm2Sign_then_Sm2Verify F fuel d tbs [] rho r s rho1 Hd E) as Hv.
+  pose proof Hv as Hv'. apply C01.C01_Sm2Verify_characterisation in Hv' as (za & _ & Hr & Hs & _).
   pose proof sm2_n_lt_2_256. pose proof (sig_encode_length r s ltac:(lia) ltac:(lia)) as Hl.
   assert (H72 : 72 < 2 ^ 32) by reflexivity.
   apply checkSignature_sm2_iff.
@@ -75,17 +76,17 @@ Proof.
   apply (checkSignature_sm2_iff pub tbs b Hb) in H as (r & s & E & Hv).
   apply (checkSignature_sm2_iff pub tbs' b Hb) in H' as (r' & s' & E' & Hv').
   assert (Hrs : r' = r /\ s' = s).
-  { pose proof Hv as A. apply Sm2Verify_iff in A as (_ & _ & Hr & Hs & _).
-    pose proof Hv' as A'. apply Sm2Verify_iff in A' as (_ & _ & Hr' & Hs' & _).
+  { pose proof Hv as A. apply C01.C01_Sm2Verify_characterisation in A as (_ & _ & Hr & Hs & _).
+    pose proof Hv' as A'. apply C01.C01_Sm2Verify_characterisation in A' as (_ & _ & Hr' & Hs' & _).
     pose proof sm2_n_lt_2_256.
     assert (Hl : Z.of_nat (length b) < 2 ^ 32).
     { subst b. pose proof (sig_encode_length r s ltac:(lia) ltac:(lia)). assert (72 < 2 ^ 32) by reflexivity. lia. }
-    assert (D1 : sig_decode b = Some (r, s)) by (apply sig_decode_iff; [exact Hb|lia|lia|split; assumption]).
-    assert (D2 : sig_decode b = Some (r', s')) by (apply sig_decode_iff; [exact Hb|lia|lia|split; assumption]).
+    assert (D1 : sig_decode b = Some (r, s)) by (apply C01.C01_der_strict; [exact Hb|lia|lia|split; assumption]).
+    assert (D2 : sig_decode b = Some (r', s')) by (apply C01.C01_der_strict; [exact Hb|lia|lia|split; assumption]).
     rewrite D1 in D2. injection D2 as -> ->. split; reflexivity. }
   destruct Hrs as [-> ->].
   assert (Hu : Z.of_nat (length (uid_or_default [])) < 8192) by (vm_compute; reflexivity).
-  exact (Sm2Verify_same_e pub tbs [] tbs' [] r s Hu Hu Hx Hy Hv Hv').
+  exact (C01.C01_accept_implies_same_e_mod_n pub tbs [] tbs' [] r s Hu Hu Hx Hy Hv Hv').
 Qed.
 
 (* ---------- the other key families, by contract ------------------------------------------------------------
